@@ -48,6 +48,14 @@ def texts(run):
     for _ in range(3000 if run.tier == "thorough" else 400):
         k = rng.choice([1, 5, 20, 60, 200])
         yield "".join(rng.choice(["a", "b", " ", "\t", "\n", "\n", "xy = 1;", "\n\n"]) for _ in range(k))
+    # characters other line-splitting conventions treat as line ends: only "\n" ends a line here
+    odd = ["\r", "\r\n", "\x0c", "\x0b", "\x85", "\u2028", "\u2029", "\x1c", "\x1e"]
+    for k in range(1, 5 if run.tier == "thorough" else 4):
+        for t in itertools.product(["a", "\n"] + odd[:3], repeat=k):
+            yield "".join(t)
+    for _ in range(1500 if run.tier == "thorough" else 300):
+        k = rng.choice([2, 5, 12, 40])
+        yield "".join(rng.choice(["a", " ", "\n", "\n"] + odd) for _ in range(k))
 
 
 PROGRAMS = [
@@ -57,6 +65,9 @@ PROGRAMS = [
     "struct $S { float $m ; int $n ; } function $f ( float4 $v ) -> float { $S $s ; $s . $m = $v . x ; $s . $n = 3 ; return $s . $m + $v . y ; }",
     "export function $f ( int $a ) -> int { int $r = 0 ; for ( int $i = 0 ; $i < $a ; ++ $i ) { $r = $r + $i ; if ( $r > 100 ) { break ; } } while ( $r > 7 ) { $r -- ; } return $r ; }",
     "function $g ( float $q ) -> float { return $q * 2.0 ; } export function $f ( float $a ) -> float { float $z = $g ( $a ) ; do { $z = $z + 1.0 ; } while ( $z < 3.0 ) return $z ; }",
+    # declarations of different kinds interleaved: the module's parts are not traversed in textual order
+    "function $g ( int $q ) -> int { return $q + 1 ; } int $counter ; struct $S { int $m ; } function $h ( int $a ) -> int { $counter = $a ; return $g ( $a ) ; } float $w ; export function $f ( int $a ) -> int { while ( $a < 3 ) { $a = $a + 1 ; } return $h ( $a ) ; }",
+    "int $u ; function $g ( ) -> int { return $u ; } struct $T { float $m ; } int [ 2 ] $arr ;",
 ]
 LAYOUTS = [" ", "\n", "\t", "\n\n", "\n    ", "  \t\n\t"]
 
@@ -156,21 +167,29 @@ def explore(run, widen=1):
     rng = run.rng
     # --- line table, lookup, formatting
     q, meta = [], []
+    def guarded(kind, inp, thunk):
+        """the implementation must answer for every text/offset; an exception is a failure of the property"""
+        try:
+            return thunk()
+        except Exception as e:
+            run.fail(kind, inp, "%s raised on %r" % (type(e).__name__, inp), key=kind + ":raises")
+            return "raised " + type(e).__name__
     for t in texts(run):
-        sm = A.SourceMapping(t)
-        offs = [sm.GetLineStartOffset(i) for i in range(t.count("\n") + 1)]
+        sm = guarded("line", dict(text=t, offset=0), lambda: A.SourceMapping(t))
+        if isinstance(sm, str): continue
+        offs = guarded("line", dict(text=t, offset=0), lambda: [sm.GetLineStartOffset(i) for i in range(t.count("\n") + 1)])
         q.append("loc offsets " + cps(t)); meta.append(("offsets", t, None, str(offs)))
         n = len(t)
         pts = range(n + 1) if n <= 10 else sorted({0, n} | {rng.randrange(n + 1) for _ in range(12)})
         for o in pts:
-            impl = sm.GetLineFromOffset(o)
+            impl = guarded("line", dict(text=t, offset=o), lambda: sm.GetLineFromOffset(o))
             q.append("loc line %s %d" % (cps(t), o)); meta.append(("line", t, o, str(impl)))
             if impl != t[:o].count("\n"):
                 run.fail("line", dict(text=t, offset=o), "offset %d of %r is reported on line %d" % (o, t, impl))
         rngs = [(b, e) for b in pts for e in pts if b <= e]
         if len(rngs) > 70: rngs = rng.sample(rngs, 70)
         for b, e in rngs:
-            impl = str(A.Location((b, e), sm))
+            impl = guarded("format", dict(text=t, b=b, e=e), lambda: str(A.Location((b, e), sm)))
             q.append("loc fmt %s %d %d" % (cps(t), b, e)); meta.append(("fmt", t, (b, e), impl))
             if not designates(t, b, e, impl):
                 run.fail("format", dict(text=t, b=b, e=e), "range [%d,%d) of %r printed as %s" % (b, e, t, impl))
